@@ -75,3 +75,64 @@ Example C19_hypotheses_satisfiable :
                leaf_vals ls = [Some ["001"%byte]; Some ["002"%byte]; Some ["003"%byte]] /\
                filter (retained (normalize ex_opt) ex_keys ex_vals) (List.seq 0 (length ex_keys)) = [0; 2; 4].
 Proof. vm_compute. eexists. eexists. repeat split. Qed.
+
+(* ---- String() over the MESSAGE and over the LOADED INSTANCE (composition of L2, L3, L4) ------
+   coq/theories/StatMsg.v ([mrender]) runs String() the way the Go code runs it over the
+   protobuf message fields (Bits.msg): the inner node ids from ToArray(NodeTypeBM.Words);
+   for each of them getNode, getLabels (label bitmap of size 17 / 257 / a short-table entry
+   decoded as 17; label text = bmtree path of the set index) and Rank128(Inners, from) for
+   the child ids; then the walk of low/tree.String over the callbacks: bitmap.Get on
+   NodeTypeBM and getNode's innerPrefixLen (NodeInfo), getLeafIndex = Rank64 on NodeTypeBM
+   and getIthLeaf on Leaves (LeafVal).  Same structured lines as [render] (the text layout
+   stays compared, not proved).  coq/theories/StatMsgInst.v: String() of an instance of the
+   Unmarshal / Reset state machine ("" when NodeTypeBM == nil, else over inner and vars). *)
+From Coq Require Import NArith ZArith.
+From Slim Require Import BitmapRank Proto Instance Wire EndToEnd MsgProofs StatMsg StatMsgProofs StatMsgInst StatMsgInstProofs.
+From Slim Require Bits.
+Local Open Scope nat_scope.
+
+(* on the message of every built trie, String() computed from the message fields yields
+   exactly the lines of the tree: C19_render holds for what the implementation computes from
+   its bitmaps ([fuel] bounds the depth of the walk) *)
+Theorem C19_message_level_render :
+  forall o keys vals T m vs fuel,
+    build o keys vals = Ok T -> Bits.encode_trie T = Val m -> Bits.init_vars m = Val vs ->
+    trie_height T <= fuel ->
+    mrender fuel m vs = render T.
+Proof. exact mrender_render. Qed.
+Print Assumptions C19_message_level_render.
+
+(* "a loaded trie renders identically to the trie it was marshaled from": build a trie from
+   ANY accepted input, take its message m (tied to creator.build field by field in check
+   L3), Marshal it and Unmarshal the bytes into an instance in ANY state after ANY history of
+   Unmarshal / Reset calls.  String() of the loaded instance yields the same lines as
+   String() of the instance NewSlimTrie returned ([built]: inner = m, vars = initVars(m)),
+   and they are the lines of the tree.  [wf_msg (to_wire m)]: counts and offsets fit the Go
+   field types and the body is below 2^63 bytes; to_wire is the identity on fields. *)
+Theorem C19_loaded_renders_identically :
+  forall (conv510 : slim -> slim) (conv3 : list byte -> list byte -> list byte -> slim)
+         o keys vals T m vs s (st : inst VarsT LevelsT) h fuel,
+    build o keys vals = Ok T -> Bits.encode_trie T = Val m -> Bits.init_vars m = Val vs ->
+    wf_msg (to_wire m) = true -> marshal_gen (to_wire m) = Some s ->
+    trie_height T <= fuel ->
+    let built := installed VarsT LevelsT ivars ilevels (to_wire m) in
+    let loaded := run compat_gen cur_gen VarsT LevelsT ivars ilevels reset_lv conv510 conv3 st (h ++ [OpUnmarshal s]) in
+    inst_render loaded fuel = inst_render built fuel /\ inst_render loaded fuel = render T.
+Proof. exact loaded_render. Qed.
+Print Assumptions C19_loaded_renders_identically.
+
+(* the hypotheses hold for the trie of the example above; the message-level String()
+   computes its lines from the bitmaps *)
+Example C19_loaded_example :
+  exists T m vs s ls, build (normalize ex_opt) ex_keys ex_vals = Ok T /\ Bits.encode_trie T = Val m /\
+    Bits.init_vars m = Val vs /\ wf_msg (to_wire m) = true /\ marshal_gen (to_wire m) = Some s /\
+    trie_height T <= 5 /\ mrender 5 m vs = Ok ls /\
+    map l_id ls = [0; 1; 2; 4; 3; 5] /\ map l_indent ls = [0; 4; 4; 15; 4; 15] /\
+    leaf_vals ls = [Some ["001"%byte]; Some ["002"%byte]; Some ["003"%byte]].
+Proof.
+  destruct (build (normalize ex_opt) ex_keys ex_vals) as [T|] eqn:E; [|vm_compute in E; discriminate].
+  vm_compute in E. injection E as <-.
+  eexists _, _, _, _, _. split; [reflexivity|]. split; [vm_compute; reflexivity|]. split; [vm_compute; reflexivity|].
+  split; [vm_compute; reflexivity|]. split; [vm_compute; reflexivity|]. split; [vm_compute; repeat constructor|].
+  split; [vm_compute; reflexivity|]. vm_compute. repeat split.
+Qed.
